@@ -180,6 +180,63 @@ def run(ctx):
         errs = T.validate_agp_text(written)
         if errs:
             ctx.out.oracle_fail("foreign-agp", inp, "AGP re-written from a GenBank-style AGP is not valid: " + errs[0], detail={"text": written[:500]})
+    # object histories: a Scaffold that has already been written / indexed once is CHANGED (append_scaffold with or without a gap,
+    # add_row, rows replaced or removed in place — all of which the tools do) and written again: the AGP must be the one a freshly
+    # built scaffold with the same rows gives, and valid
+    import copy as _copy
+    from tola.assembly.assembly import Assembly as _Assembly
+    from tola.assembly.indexed_assembly import IndexedAssembly as _IA
+    from tola.assembly.gap import Gap as _Gap
+    from tola.assembly.fragment import Fragment as _Fragment
+    for _ in range(120 * n):
+        a = T.rand_assembly(rng, "agp")
+        seen = set()
+        for s_ in a["scaffolds"]:
+            while s_["name"] in seen:
+                s_["name"] += "_"
+            seen.add(s_["name"])
+        if not a["scaffolds"]:
+            continue
+        scs = [conv.to_real_scaffold(s_) for s_ in a["scaffolds"]]
+        asm = _Assembly("x", scaffolds=scs)
+        hist = []
+        try:
+            for step in range(rng.randint(1, 4)):
+                op = rng.choice(["format", "index", "append", "append-gap", "add-row", "pop", "trim-last", "length"])
+                tgt = rng.choice(scs)
+                hist.append(op)
+                if op == "format":
+                    format_agp(asm, _io.StringIO())
+                elif op == "index":
+                    _IA.new_from_assembly(asm)
+                elif op == "length":
+                    _ = tgt.length, tgt.fragments_length
+                elif op in ("append", "append-gap"):
+                    other = conv.to_real_scaffold(rng.choice(a["scaffolds"]))
+                    tgt.append_scaffold(other, _Gap(rng.choice([1, 200]), "scaffold") if op == "append-gap" else None)
+                elif op == "add-row":
+                    tgt.add_row(_Fragment("ctgNEW", 1, rng.randint(1, 50), 1))
+                elif op == "pop" and len(tgt.rows) > 1:
+                    tgt.rows.pop()
+                elif op == "trim-last" and tgt.rows and isinstance(tgt.rows[-1], _Fragment) and tgt.rows[-1].length > 1:
+                    f_ = tgt.rows[-1]
+                    tgt.rows[-1] = _Fragment(f_.name, f_.start, f_.end - 1, f_.strand, f_.tags)
+            buf = _io.StringIO(); format_agp(asm, buf); got = buf.getvalue()
+            snap = {"header": [], "scaffolds": [{"name": s_.name, "rows": [conv.strip_oids(conv.from_real_row(r)) for r in s_.rows]} for s_ in scs]}
+            want = T.real_format(snap, "agp")
+        except Exception as e:
+            ctx.out.case("object-history", {"asm": a, "history": hist}, ("history", "err"))
+            continue
+        inp = {"asm": a, "history": hist, "rows_at_the_end": snap, "source": "object-history"}
+        ctx.out.case("object-history", inp, ("history", tuple(hist)))
+        if "ok" in want and got != want["ok"]:
+            ctx.out.oracle_fail("object-history", inp, "AGP written for a scaffold that was written/indexed before and then changed differs from the AGP of a fresh scaffold with the same rows",
+                                detail={"got": got[:400], "want": want["ok"][:400]})
+            continue
+        names = [s_["name"] for s_ in snap["scaffolds"]]
+        errs = T.validate_agp_text(got, lengths(snap["scaffolds"]) if len(set(names)) == len(names) else None) if all(R.flen(r) >= 1 for s_ in snap["scaffolds"] for r in s_["rows"] if r["t"] == "G") else []
+        if errs:
+            ctx.out.oracle_fail("object-history", inp, "AGP of a changed scaffold is not coordinate-valid: " + errs[0])
     # asm-format CLI
     from click.testing import CliRunner
     from tola.assembly.scripts.asm_format import cli
